@@ -27,7 +27,12 @@ RULE = ("manifests generated over all nine entry kinds (list, dict, OrderedDict 
         "from the enumerated code-point classes (0x00-0x9F, 0xD7FF-0xE000, 0x2028/9, 0xFEFF, 0xFFFE/F, 0x10000, 0x10FFFF, "
         "random) as primitive values, dict keys and path components; int keys up to +-10^40; bytes 0..255 of every padding "
         "length; float bit-pattern classes (NaN payloads, +-0, subnormals, inf); every strict prefix of sampled documents; "
-        "a malformed stream (deleted / duplicated / inserted brackets, quotes, escapes, truncation). A case is non-trivial "
+        "a malformed stream (deleted / duplicated / inserted brackets, quotes, escapes, truncation) and a fixed list of "
+        "ill-typed documents the untyped reader accepts or rejects for dynamic reasons (wrong field types, shards given as "
+        "dict / str / number, extra and missing keys, readable_value passed as a key, non-str type tags); "
+        "PrimitiveEntry.from_object on ints, strs, bools, bytes and float bit patterns, get_value on (type, value) pairs "
+        "including unsupported type names and malformed values, TensorEntry.byte_range_tuple on None and lists of length "
+        "0..3. A case is non-trivial "
         "when the manifest has at least one entry or the text is a non-empty document; distinct by content hash.")
 TRUSTED = [
     "Coq 8.16.1 kernel and its vm_compute VM (no native_compute)",
@@ -798,16 +803,21 @@ def check_codec(ctx: Ctx, res: Result, M):
     cases = []
     for o in objs:
         e = M.PrimitiveEntry.from_object(o)
-        g = e.get_value()
-        tag = {"int": 0, "str": 1, "bool": 2, "bytes": 3, "float": 4}[e.type]
-        payload = (list(bits_of_float(g)) if e.type == "float" else list(g) if e.type == "bytes" else g)
-        cases.append((f"({term(e.type)}, {term(e.serialized_value)})" if USE_GEN else f"({PK[e.type]}, {term(e.serialized_value)})",
-                      val([tag, payload])))
+        inp = f"({term(e.type)}, {term(e.serialized_value)})" if USE_GEN else f"({PK[e.type]}, {term(e.serialized_value)})"
+        try:
+            g = e.get_value()
+            tag = {int: 0, str: 1, bool: 2, bytes: 3, float: 4}[type(g)]
+            cases.append((inp, val([tag, list(bits_of_float(g)) if tag == 4 else list(g) if tag == 3 else g])))
+        except Exception:
+            cases.append((inp, "(VL [])"))            # get_value raises on what from_object wrote (the oracle below reports it)
+        if isinstance(o, (bool, str)):
+            oracle_from_object(o, M, res)
         if isinstance(o, float):
             res.count("codec.float_class", float_class(struct.unpack("<Q", bits_of_float(o))[0]))
             oracle_from_object(o, M, res)
         res.case({"kind": "from_object", "type": e.type, "sv": cps(e.serialized_value)[:40]}, True)
-    bad, errs = coqrun.run_cases("C14_gv", IMPORTS_GEN if USE_GEN else IMPORTS, "obs_get_value_gen" if USE_GEN else "obs_get_value", cases)
+    bad, errs = coqrun.run_cases("C14_gv", IMPORTS_GEN if USE_GEN else IMPORTS, "obs_get_value_gen" if USE_GEN else "obs_get_value", cases,
+                                 in_type="pystr * pystr" if USE_GEN else "pkind * pystr")
     add_mism(res, W_CODEC, errs, bad, lambda i: {"get_value": repr(objs[i])[:200]})
     res.traces_validated += len(ints) + len(blobs) + len(objs)
 
@@ -1047,10 +1057,11 @@ def check_primitive(ctx: Ctx, res: Result, M):
     cases = []
     for o in objs:
         e = M.PrimitiveEntry.from_object(o)
+        oracle_from_object(o, M, res)
         cases.append((f"({pvalue_term(o)}, {term(e.readable or '')})",
                       val([e.type, e.serialized_value, e.replicated, None if e.readable is None else [e.readable]])))
         res.count("primitive.from_object", e.type)
-    bad, errs = coqrun.run_cases("C14_fo", IMPORTS_GEN, "obs_from_object_gen", cases)
+    bad, errs = coqrun.run_cases("C14_fo", IMPORTS_GEN, "obs_from_object_gen", cases, in_type="pvalue * pystr")
     add_mism(res, W_PRIM, errs, bad, lambda i: {"from_object": repr(objs[i])[:200], "impl": cases[i][1][:200]})
     # get_value on arbitrary (type, serialized_value) pairs: unsupported type names and malformed values raise
     pairs = [("int", "12"), ("int", "-0"), ("int", "+7"), ("int", ""), ("int", "-"), ("int", "12a"), ("int", "0x10"), ("int", "1.0"),
@@ -1070,7 +1081,7 @@ def check_primitive(ctx: Ctx, res: Result, M):
             exp = None
         cases.append((f"({term(ty)}, {term(sv)})", val(exp) if exp is not None else "(VL [])"))
         res.count("primitive.get_value", "raises" if exp is None else ty)
-    bad, errs = coqrun.run_cases("C14_gv2", IMPORTS_GEN, "obs_get_value_gen", cases)
+    bad, errs = coqrun.run_cases("C14_gv2", IMPORTS_GEN, "obs_get_value_gen", cases, in_type="pystr * pystr")
     add_mism(res, W_PRIM, errs, bad, lambda i: {"get_value": list(pairs[i]), "impl": cases[i][1][:200]})
     # byte_range_tuple
     brs = [None, [0, 24], [5, 5], [2**40, 2**41], [1, 2, 3], [7], []]
@@ -1168,6 +1179,8 @@ def search(ctx: Ctx, broken) -> Result:
         oracle_from_object(bytes(rng.randrange(256) for _ in range(n)), M, res)
     for _ in range(500):
         oracle_from_object(gen_str(rng, 12), M, res)
+    for b in (True, False):
+        oracle_from_object(b, M, res)
     return res
 
 
@@ -1187,19 +1200,35 @@ def replay(ctx: Ctx, data):
 
 
 MANIFEST = {
-    "level_text": ("Machine-checked proof (Coq 8.16.1) over executable models of the metadata codec in four layers: decimal/"
-                   "bool/base64 codecs (int(str(z)) = z for every z; b64decode(b64encode bs) = bs for every byte list; floats as "
-                   "8 opaque bytes), json.dumps(ensure_ascii=True) string escaping against the json.loads scanner (every string "
-                   "over 0..0x10FFFF incl. lone surrogates), dataclasses.asdict / from_yaml_obj for all nine entry kinds (equal "
-                   "up to `readable`, get_value preserved), and json.dumps(indent=2) against a json.loads model (parse(print v) = v; "
-                   "every strict prefix of a printed object is rejected). The models are tied to the code on every run by "
-                   "differential execution of the real SnapshotMetadata.to_yaml/from_yaml, json, base64 and struct against the "
-                   "models inside coqc (vm_compute), including every strict prefix of sampled documents and a malformed stream."),
-    "level_note": ("Trusted: Coq kernel + VM; the hand-written models and the differential harness; CPython's json/base64/struct "
-                   "C code and libyaml are runtime behaviour (modelled, not verified). The YAML fallback reader is a Section "
-                   "variable: round trips never reach it, prefix rejection assumes it rejects strict prefixes (tested on every "
-                   "sampled prefix). Forced hypothesis: no high surrogate code point immediately followed by a low one (json.loads "
-                   "joins them) - reported as a known finding."),
-    "technique": "Coq proof (structural induction, fuel-based recursive-descent parser) with vm_compute correspondence against the real code",
+    "level_text": ("Machine-checked proof (Coq 8.16.1). The manifest.py part of the model is REGENERATED FROM THE SOURCE on every run "
+                   "(translator/gen_manifest.py, fail closed): every entry dataclass (base class, fields in source order, __init__ "
+                   "parameters with defaults, the `type` tag passed to super().__init__, the self.f = p assignments, every "
+                   "from_yaml_obj body statement by statement), the if/elif dispatch chain, its fall-through and the json-first / "
+                   "yaml-fallback loader order of SnapshotMetadata.from_yaml, the keyword arguments of the json.dumps call of "
+                   "to_yaml, the PrimitiveType enum and the expression forms of PrimitiveEntry.get_value/_serialize/from_object. "
+                   "coq/model/PyManifest.v interprets that data (constructor call, dataclasses.asdict, from_yaml_obj statements, "
+                   "json.dumps options). Per-run proof obligations (proofs/ManifestInst.v): the generated to_yaml writes exactly "
+                   "the text of the specification model for every metadata; for every entry of all nine kinds constructor, asdict, "
+                   "dispatch and from_yaml_obj compose to the identity up to `readable`; generated get_value/from_object equal the "
+                   "model's. On top of them the property theorems are restated over the generated terms: from_yaml(to_yaml md) = md "
+                   "for every well-formed metadata, to_yaml injective, every strict prefix of a written document rejected, "
+                   "from_object -> get_value identity bit for bit. Underneath, hand-written models of CPython: decimal/bool/base64 "
+                   "codecs (int(str(z)) = z for every z; b64decode(b64encode bs) = bs; floats as 8 opaque bytes), "
+                   "json.dumps(ensure_ascii=True) string escaping against the json.loads scanner (every string over 0..0x10FFFF "
+                   "incl. lone surrogates), json.dumps(indent=2) against a json.loads model (parse(print v) = v; every strict prefix "
+                   "of a printed object rejected). Generated terms and CPython models are tied to the code on every run by "
+                   "differential execution of the real SnapshotMetadata.to_yaml/from_yaml (well-formed, ill-typed and malformed "
+                   "documents, every strict prefix of sampled documents), PrimitiveEntry.from_object/get_value, json, base64 and "
+                   "struct against the models inside coqc (vm_compute)."),
+    "level_note": ("Trusted: Coq kernel + VM; translator/gen_manifest.py and the interpreter coq/model/PyManifest.v (including the typed "
+                   "view of entry objects through class, constructor-keyword and attribute names), both exercised by the "
+                   "differential harness on every run; the hand-written models of CPython's json/base64/struct C code (modelled, "
+                   "not verified) and libyaml. The YAML fallback reader is a Section variable: round trips never reach it, prefix "
+                   "rejection assumes it rejects strict prefixes (tested on every sampled prefix). Forced hypothesis: no high "
+                   "surrogate code point immediately followed by a low one (json.loads joins them) - reported as a known finding. "
+                   "Not translated: ShardedTensorEntry.get_tensor_shape (not serialization); manifest.py has no key-escaping helper."),
+    "technique": ("Coq proof over terms regenerated from the source (Python ast -> Gallina data + interpreter; instantiation lemmas by "
+                  "case analysis and computation), structural induction, fuel-based recursive-descent parser; vm_compute "
+                  "correspondence of the generated terms against the real code"),
     "design_ref": "DESIGN.md section 5, C14",
 }
